@@ -28,8 +28,12 @@ def run(ctx):
     rule_RO(ctx, repo, eng, lg)
     rule_find_and_delete(ctx, repo)
     c04.common_hash_rule(ctx, repo, 'C03.H1')
+    # the scratch copy is deep: what used to be an assumption is the C09 copy-constructor rule, run here
+    from . import c09
+    base, imm, mut = c09.classes(repo)
+    c09.rule_R6(ctx, repo, eng, imm, mut, rid='C03.F2')
     ctx.not_decided += ['the bytes FindAndDelete produces on arbitrary scripts (only: every result comes out of the complete token walk)', 'the digest value (SHA-256, serialisation bytes: see C01)']
-    ctx.assume('the scratch copy is deep (decided by C09.R6) and its serialisation is the C01 layout')
+    ctx.assume('the serialisation of the scratch copy is the C01 layout')
 
 
 def rule_find_and_delete(ctx, repo):
@@ -216,6 +220,34 @@ def rule_wrapper(ctx, repo):
     if not bad:
         r.check(ok_ret and ok_raise, 'error-mapping', common.site_of(fi, call), 'error <=> ValueError; otherwise the raw digest is returned',
                 'the legacy branch lacks %s' % ('the ValueError for a reported error' if not ok_raise else 'a normal return of the digest'))
+    # nothing is evaluated on the way to the raw form that could raise something else: an index, in particular, is looked
+    # at by RawSignatureHash first (and reported as an error value), never by the wrapper
+    body = fi.node.body
+    pre = []
+    for s in body:
+        if b.branch is not None and s is b.branch:
+            break
+        if s in tail:
+            break
+        pre.append(s)
+    pre += tail[:idx]
+    np_ = 0
+    for s in pre:
+        if isinstance(s, ast.Expr) and isinstance(s.value, ast.Constant):
+            continue
+        if isinstance(s, ast.Assert):
+            continue
+        for x in ast.walk(s):
+            if isinstance(x, ast.Subscript) and not isinstance(x.slice, ast.Slice) and any(isinstance(y, ast.Name) and y.id == fi.params[2] for y in ast.walk(x.slice)):
+                np_ += 1
+                r.violated('prefix:%s' % norm(x), common.site_of(fi, x),
+                           'SignatureHash evaluates `%s` before handing over to RawSignatureHash: an input index that does not exist raises IndexError here, where the raw form '
+                           'reports the error that becomes ValueError' % norm(x), sure=True)
+            elif isinstance(x, ast.Call) and not isinstance(s, ast.Assert):
+                np_ += 1
+                r.undecided('prefix:%s' % norm(x)[:40], common.site_of(fi, x), 'SignatureHash calls `%s` on the way to the raw form; what it can raise is not decided' % norm(x)[:80])
+    if np_ == 0:
+        r.ok('prefix', fi.site, 'nothing that can raise is evaluated before the raw form is called (%d statements)' % len(pre))
     # nothing else may reject in the legacy branch (the digest is defined for every subscript that parses)
     n = 0
     for s in tail:
